@@ -78,6 +78,41 @@ def lower (c : UInt8) : UInt8 := if 65 ≤ c && c ≤ 90 then c + 32 else c
 def lowerB (b : Bytes) : Bytes := b.map lower
 def eqFold (a b : Bytes) : Bool := lowerB a == lowerB b
 
+/-! ### Go's `[]rune(string)`: UTF-8 decoding where every invalid byte becomes U+FFFD -/
+
+def inR (b lo hi : UInt8) : Bool := lo ≤ b && b ≤ hi
+
+/-- `utf8.DecodeRuneInString`: (rune, width ≥ 1) of a non-empty input -/
+def decodeRune (b0 : UInt8) (r : Bytes) : Nat × Nat :=
+  if b0 < 128 then (b0.toNat, 1)
+  else
+    -- second-byte acceptance range depends on the first byte
+    let lo : UInt8 := if b0 == 0xE0 then 0xA0 else if b0 == 0xF0 then 0x90 else 0x80
+    let hi : UInt8 := if b0 == 0xED then 0x9F else if b0 == 0xF4 then 0x8F else 0xBF
+    let need : Nat := if inR b0 0xC2 0xDF then 1 else if inR b0 0xE0 0xEF then 2 else if inR b0 0xF0 0xF4 then 3 else 0
+    match need, r with
+    | 1, b1 :: _ =>
+      if inR b1 lo hi then ((b0.toNat % 32) * 64 + b1.toNat % 64, 2) else (0xFFFD, 1)
+    | 2, b1 :: b2 :: _ =>
+      if inR b1 lo hi && inR b2 0x80 0xBF then
+        ((b0.toNat % 16) * 4096 + (b1.toNat % 64) * 64 + b2.toNat % 64, 3)
+      else (0xFFFD, 1)
+    | 3, b1 :: b2 :: b3 :: _ =>
+      if inR b1 lo hi && inR b2 0x80 0xBF && inR b3 0x80 0xBF then
+        ((b0.toNat % 8) * 262144 + (b1.toNat % 64) * 4096 + (b2.toNat % 64) * 64 + b3.toNat % 64, 4)
+      else (0xFFFD, 1)
+    | _, _ => (0xFFFD, 1)
+
+def toRunesAux : Nat → Bytes → List Nat
+  | 0, _ => []
+  | _, [] => []
+  | fuel + 1, b0 :: r =>
+    let (rune, w) := decodeRune b0 r
+    rune :: toRunesAux fuel (r.drop (w - 1))
+
+/-- Go's `[]rune(s)` -/
+def toRunes (b : Bytes) : List Nat := toRunesAux b.length b
+
 /-! ### association lists keyed by `Bytes`, first binding wins, insertion order kept -/
 
 def alookup {α} (k : Bytes) : List (Bytes × α) → Option α
